@@ -274,6 +274,10 @@ func raMain(args []string) {
 			ok, rec := d.project(src)
 			res["first_learned"], res["first_rec"] = ok, rec
 		}
+		if mc, _ := a["macChange"].(bool); mc { // the router's Ethernet source changes between the two advertisements
+			smac = d.u.HuntMAC("rm" + strconv.Itoa(k+100))
+			res["ethsrc2"] = smac.String()
+		}
 		errs, pan := d.feed(build(a["h"].(map[string]interface{}), a["opts"].([]interface{})))
 		res["errs"] = errs
 		if pan != "" {
